@@ -60,6 +60,8 @@ pub(crate) struct Parser<'a> {
     named_groups: NamedGroups,
     numeric_backrefs: bool,
     curr_group: usize, // need to keep track of which group number we're parsing
+    /// whether the most recently finished `parse_re` call saw a `|` at its own level
+    last_re_had_alt: bool,
 }
 
 impl<'a> Parser<'a> {
@@ -96,6 +98,7 @@ impl<'a> Parser<'a> {
             numeric_backrefs: false,
             flags: FLAG_UNICODE,
             curr_group: 0,
+            last_re_had_alt: false,
         }
     }
 
@@ -110,8 +113,10 @@ impl<'a> Parser<'a> {
                 children.push(child);
                 ix = self.optional_whitespace(next)?;
             }
+            self.last_re_had_alt = true;
             return Ok((ix, Expr::Alt(children)));
         }
+        self.last_re_had_alt = false;
         // can't have numeric backrefs and named backrefs
         if self.numeric_backrefs && !self.named_groups.is_empty() {
             return Err(Error::CompileError(CompileError::NamedBackrefOnly));
@@ -783,6 +788,9 @@ impl<'a> Parser<'a> {
         };
         next = self.check_for_close_paren(next)?;
         let (end, child) = self.parse_re(next, depth)?;
+        // whether the branches were separated by a `|` here; an alternation inside a group, as
+        // in `(?(1)(?:a|b))`, is a single branch
+        let has_else = self.last_re_had_alt;
         if end == next {
             // Backreference validity checker
             if let Expr::Backref(group) = condition {
@@ -800,8 +808,11 @@ impl<'a> Parser<'a> {
         let if_true: Expr;
         let mut if_false: Expr = Expr::Empty;
         // `(?(1)|)` has (empty) branches, unlike `(?(1))`
-        let has_else = matches!(child, Expr::Alt(_));
-        if let Expr::Alt(mut alternatives) = child {
+        let (alternatives, single) = match child {
+            Expr::Alt(alternatives) if has_else => (Some(alternatives), None),
+            child => (None, Some(child)),
+        };
+        if let Some(mut alternatives) = alternatives {
             // the truth branch will be the first alternative
             if_true = alternatives.remove(0);
             // if there is only one alternative left, take it out the Expr::Alt
@@ -813,7 +824,7 @@ impl<'a> Parser<'a> {
             }
         } else {
             // there is only one branch - the truth branch. i.e. "if" without "else"
-            if_true = child;
+            if_true = single.expect("single branch");
         }
         let inner_condition = if let Expr::Backref(group) = condition {
             Expr::BackrefExistsCondition(group)
